@@ -526,7 +526,14 @@ class Client(base_client.BaseClient):
         """Dispatch Engine.IO messages."""
         if self._binary_packet:
             pkt = self._binary_packet
-            if pkt.add_attachment(data):
+            try:
+                complete = pkt.add_attachment(data)
+            except Exception:
+                # a packet that cannot be put together is given up as a
+                # whole, what follows it is not one of its attachments
+                self._binary_packet = None
+                raise
+            if complete:
                 self._binary_packet = None
                 if pkt.packet_type == packet.BINARY_EVENT:
                     self._handle_event(pkt.namespace, pkt.id, pkt.data)
